@@ -547,7 +547,11 @@ class OpsMixin(object):
                 return Opaque(("call", fn.path, tuple(a.key() if isinstance(a, V) else repr(a) for a in args)))
             nums = [self.num(a, node) for a in args]
             self.log_event(("eval", fn.path))
-            return Num(ep.app(fn.path, nums))
+            pth = fn.path
+            if isinstance(pth, tuple) and len(pth) == 3 and pth[0] == "attr" and pth[2] in ("deriv", "deriv2") and len(nums) == 1:
+                # a user callable's own .deriv/.deriv2 denote its derivatives (its correctness is its author's obligation)
+                return Num(ep.app(pth[1], nums, dorder=1 if pth[2] == "deriv" else 2))
+            return Num(ep.app(pth, nums))
         if isinstance(fn, DerivV):
             return self.call_deriv(fn, args, node)
         if isinstance(fn, Unknown):
